@@ -370,6 +370,20 @@ def run(pid, tier, seed, replay=None):
                 ctx.model_drift("scenario %d: first difference at event %d: predicted %s, observed %s; cfg=%s"
                                 % (r["id"], r["drift"]["at"], r["drift"]["pred"], r["drift"]["obs"], json.dumps(sc["c"], sort_keys=True)))
         ctx.extra["conformance"] = {"compared_with_model_prediction": npred, "drift": ndrift}
+        if pid == "C06":
+            # figure documents with 1..n figures: captions per placement option, and every page after
+            # the first begins with a break restating the geometry (spec/Figure.tla, spec/FigTrace.tla)
+            import check_figure
+            import figure16
+            fitems = check_figure.scenarios(ctx, work, tier, seed)
+            if tier == "quick":
+                fitems = fitems[:500]
+            frecs = pmap(figure16.run_one, fitems, chunk=8)
+            for it, r in zip(fitems, frecs):
+                r["seed"], r["sizes"] = it["seed"], it["sizes"]
+                ctx.note_case("fig" + json.dumps(it["c"], sort_keys=True), it["c"]["n"] >= 2)
+            check_figure._judge(ctx, work, frecs, ["C06_FigBreak", "C16_Captions"])
+            ctx.extra["figure_documents"] = len(frecs)
         multi = sum(1 for s in scs if s["pred"] and s["pred"][-1]["p"] >= 2)
         ctx.extra["scenarios_multi_page"] = multi
         if multi == 0 and pid != "C08":
